@@ -43,7 +43,7 @@ fn mk(kind: Kind, ctor: CtorKind, init: Vec<(u32, u32, i64)>, ops: Vec<Op>) -> C
 
 pub fn space_text(prop: u8) -> &'static str {
     match prop {
-        6 => "all next/next_back/len call programs of length <= 7 on into_sorted_iter (directly and reversed) over every queue of 0..=5 elements with 3 priority patterns (distinct, all ties, two-valued), plus the sorted-vec forms",
+        6 => "all next/next_back/len call programs of length <= 7 on into_sorted_iter (directly and reversed) over every queue of 0..=5 elements with 3 priority patterns (distinct, all ties, two-valued), plus the sorted-vec forms; sorted-fill sweep: queues filled in descending / ascending / all-equal / run-descending order, every size 2..=130 and a sparse set up to 1100, 9 late disturbances near the bottom of the heap, then every form of sorted consumption",
         8 => "all 2^n keep-masks of retain and retain_mut (with two rewrites) over n <= 8 elements, 3 priority patterns, both kinds",
         9 => "all next/next_back/probe call programs of length <= 7 on iter_mut() and (&mut q).into_iter() over n <= 4 elements, with and without priority rewrites, both kinds",
         1 | 2 => "size sweep: every queue size 2..=64 and a dense subset up to 600 x 4 priority patterns x {root to below-min, pop, last leaf to above-max, remove root, pop_if rewriting to below-min, extreme ties}",
@@ -223,6 +223,9 @@ pub fn small_cases(prop: u8) -> Vec<Case> {
 /// the exact size (last parent with a single child, level boundaries, size thresholds of fast paths).
 pub fn size_sweep(prop: u8) -> Vec<Case> {
     let mut v = Vec::new();
+    if prop == 6 {
+        return sorted_fill_sweep();
+    }
     let (kinds, max_n): (&[Kind], usize) = match prop {
         1 => (&[Kind::PQ], 600),
         2 => (&[Kind::DPQ], 600),
@@ -279,6 +282,66 @@ pub fn size_sweep(prop: u8) -> Vec<Case> {
                     let mut c = mk(kind, CtorKind::FromVec, big(n, pattern), o);
                     c.universe = 1024;
                     c.drain_every = 255; // the raw order check escalates to the behavioural ones
+                    v.push(c);
+                }
+            }
+        }
+    }
+    v
+}
+
+/// C06: queues filled in sorted order (the way schedulers and merges fill them: descending, ascending,
+/// all equal, few values), every size up to 130 and a sparse set up to 1100, one late disturbance near
+/// the bottom of the heap, then every form of sorted consumption. A heap vector that is already sorted
+/// is the shape on which shortcuts of the sort loops are tempting.
+fn sorted_fill_sweep() -> Vec<Case> {
+    let mut v = Vec::new();
+    let fill = |n: usize, pattern: u8| -> Vec<(u32, u32, i64)> {
+        (0..n)
+            .map(|i| {
+                let p = match pattern {
+                    0 => 2 * (n - i) as i64, // descending, with gaps
+                    1 => 2 * i as i64,       // ascending
+                    2 => 10,                 // all equal
+                    _ => 2 * ((n - i) / 8) as i64, // descending in runs of eight
+                };
+                (i as u32, 0, p)
+            })
+            .collect()
+    };
+    for kind in [Kind::PQ, Kind::DPQ] {
+        for n in 2..=1100usize {
+            if n > 130 && !(n % 64 <= 1 || n % 64 == 63 || n % 97 == 0) {
+                continue;
+            }
+            for pattern in 0..4u8 {
+                let last = Target::Pos(65535);
+                let late: Vec<Vec<Op>> = vec![
+                    vec![],
+                    // above the element pushed before it, not above its parent
+                    vec![Op::Push { t: Target::Id(5000), tag: 1, p: PrioSpec::Val(if pattern == 1 { (n / 2) as i64 * 2 - 1 } else { 3 }) }],
+                    vec![Op::Push { t: Target::Id(5000), tag: 1, p: PrioSpec::Val(n as i64 / 2) }],
+                    vec![Op::Push { t: Target::Id(5000), tag: 1, p: PrioSpec::EqMax }],
+                    vec![Op::Push { t: Target::Id(5000), tag: 1, p: PrioSpec::BelowMin(1) }, Op::Push { t: Target::Id(5001), tag: 1, p: PrioSpec::Val(5) }],
+                    vec![Op::Change { t: last, p: PrioSpec::Val(5), by_ref: true }],
+                    vec![Op::Change { t: last, p: PrioSpec::EqParent, by_ref: true }],
+                    vec![Op::Pop { end: End::Max }, Op::Push { t: Target::Id(5000), tag: 1, p: PrioSpec::Val(7) }],
+                    vec![Op::Remove { t: Target::Pos(65535 / 2), by_ref: true }],
+                ];
+                for (li, l) in late.into_iter().enumerate() {
+                    // the exhaustive part covers n <= 5 with every program; here one long program per form
+                    if n > 130 && li % 2 == 1 && pattern % 2 == 1 {
+                        continue;
+                    }
+                    let mut ops = l;
+                    ops.push(Op::Sorted { how: SortedHow::DescVec, prog: vec![] });
+                    ops.push(Op::Sorted { how: SortedHow::AscVec, prog: vec![] });
+                    let prog: Vec<ItCall> = (0..n + 3).map(|j| if kind == Kind::DPQ && (j + li) % 5 >= 3 { ItCall::Back } else { ItCall::Next }).collect();
+                    ops.push(Op::Sorted { how: SortedHow::Iter, prog });
+                    let ctor = if (n + li) % 3 == 0 { CtorKind::FromVec } else { CtorKind::New };
+                    let mut c = mk(kind, ctor, fill(n, pattern), ops);
+                    c.universe = 6000;
+                    c.drain_every = 255;
                     v.push(c);
                 }
             }
